@@ -423,6 +423,46 @@ def search(ctx):
                 ctx.fail("offcurve-accepted", {"point": pt}, repr(u)[:200])
             elif u[1] not in ("EValue", "EBec2"):
                 ctx.fail("offcurve-error-type", {"point": pt}, u[1])
+            # the same forged block inside a FILE that has a second, decryptable block: reading must refuse the invalid
+            # point (an error), not skip the ECC block and open the file through the other block
+            from bec2format.bec2file import UpdateAuthBlock, ConfigSecurityCodeEncryptor
+            from props.C02 import parse_header
+            fobj = Bec2File(B.build({}, []), [InitEccAuthBlock(1), UpdateAuthBlock(b"12345678", 1)], bytes(16))
+            fb = run_impl(lambda: fobj.to_binary([EccEncryptor(1, priv.public_key)]))
+            if fb[0] == "ok":
+                hb = [v for t, v in parse_header(fb[1])[0] if t == 3]
+                if hb and len(hb[0]) == 82:
+                    forged = fb[1].replace(hb[0][1:66], b"\x04" + pt, 1)
+                    text = "\n" + forged.hex().upper() + "\n"
+                    ctx.case(("badpoint-file", pt))
+                    g = run_impl(lambda: Bec2File.read_file(io.StringIO(text), [EccDecryptor(1, priv), ConfigSecurityCodeEncryptor(b"12345678")], True))
+                    if g[0] == "ok":
+                        ctx.fail("offcurve-accepted", {"point": pt, "file": forged},
+                                 "a BEC2 file whose ECC block carries an invalid ephemeral point is read without error (a second block opens it)")
+                    elif g[1] not in ("EValue", "EBec2"):
+                        ctx.fail("offcurve-error-type", {"point": pt, "file": forged}, g[1])
+        # the key ring handed over as a one-shot iterable (generator / iterator): the explicit recipient must still be used
+        for mk in (lambda l: iter(l), lambda l: (x for x in l), lambda l: tuple(l)):
+            d = r.randrange(1, N_ORDER)
+            rp = plug.PrivateEccKeyProxy(SigningKey.from_secret_exponent(d, NIST256p))
+            key, sel = C.gen_key(r), r.randrange(4)
+            ctx.case(("iterable-ring", d, sel, key))
+            blk = run_impl(lambda: InitEccAuthBlock(sel).pack(key, mk([EccEncryptor(sel, rp.public_key)])))
+            got = run_impl(indep_recipient, d, blk[1]) if blk[0] == "ok" else blk
+            if got != ("ok", (sel, key)):
+                ctx.fail("ecies-independent-recipient", {"d": hex(d), "sel": sel, "key": key, "note": "encryptors given as a one-shot iterable"},
+                         "InitEccAuthBlock.pack with an iterator of encryptors: %s" % repr(got)[:160])
+            fobj = Bec2File(B.build({}, []), [InitEccAuthBlock(sel)], key)
+            fb = run_impl(lambda: fobj.to_binary(mk([EccEncryptor(sel, rp.public_key)])))
+            if fb[0] == "ok":
+                from props.C02 import parse_header
+                hb = [v for t, v in parse_header(fb[1])[0] if t == 3]
+                got = run_impl(indep_recipient, d, hb[0]) if hb else ("err", "no ecc block")
+            else:
+                got = fb
+            if got != ("ok", (sel, key)):
+                ctx.fail("ecies-independent-recipient", {"d": hex(d), "sel": sel, "key": key, "note": "Bec2File.to_binary with a one-shot iterable of encryptors"},
+                         "the file's ECC block is not addressed to the explicit recipient: %s" % repr(got)[:160])
     finally:
         shutil.rmtree(tmp, ignore_errors=True)
     ctx.extra["rule"] = ("correspondence (toy plug-ins): pack of ECC blocks (explicit / default / other-selector / public-only encryptors, "
